@@ -353,8 +353,11 @@ class Interp:
             if path in (SLICE_ITER, SLICE_ITERMUT) and ty['args'] and ty_is_mu(ty['args'][0]):
                 mid = self.new_map(st, fresh('$cap'), 'phantom', phantom=True)
                 ms = st.maps[mid]
-                lo, hi = Term('$front.' + mid), Term('$back.' + mid)
-                st.zone.add_le(lo, hi)
+                # positions are relative: WLOG the cursor of an iterator handed in from outside stands at
+                # slot 0 of "its" container (the slot algebra is translation invariant), which keeps
+                # index arithmetic on the remaining slice exact
+                lo, hi = 0, Term('$back.' + mid)
+                st.zone.touch(hi)
                 owned = bool(owner_adt and self.facts.adts.get(owner_adt, {}).get('has_drop')
                              and path == SLICE_ITERMUT)
                 if owned:
